@@ -914,8 +914,14 @@ fn check(sc: &Scenario, trace: &mc_core::explore::Trace, rec: &RunRecord, aux: &
     Ok(st)
 }
 
+const DIVERGED: &str = "replay diverged from its prefix";
+
 fn run_case(sc: &Scenario, expected: &[Row]) -> (mc_core::explore::Trace, std::result::Result<RunStats, String>) {
     let (trace, rec, aux) = run_raw(sc);
+    if rec.diverged {
+        // the engine could not follow the recorded choices (nondeterminism it does not own): not a verdict
+        return (trace, Err(DIVERGED.to_string()));
+    }
     let r = check(sc, &trace, &rec, &aux, expected);
     (trace, r)
 }
@@ -1000,10 +1006,10 @@ fn scenarios(ctx: &Ctx) -> Vec<(Scenario, usize)> {
                         for strat in [Strat::InList, Strat::LookupArray, Strat::LookupHash] {
                             // without the eager buffer the probe side is only polled after the filter is complete, so
                             // the event order cannot change what is read there: low bound.  Thorough spends its deepest
-                            // bound on J1 (null_equals_nothing) and J2 (NULL build key, null_equals_null)
+                            // bound on the inputs J1 and J2
                             let core = buffered
                                 && (ctx.quick()
-                                    || ((ii == 0 && !null_eq) || (ii == 1 && null_eq)) && m.map_or(true, |n| n == 2) && strat != Strat::LookupArray);
+                                    || ii < 2 && m.map_or(true, |n| n == 2));
                             v.push((join_sc(*m, *jt, null_eq, false, strat, 1, buffered, inp, false), if core { full } else { low }));
                         }
                     }
@@ -1160,7 +1166,7 @@ fn explore(ctx: &Ctx) {
         json!({
             "scenarios": list.len(),
             "deviation_bound": max_bound,
-            "deviation_bounds": "TopK / min-max: 3 quick, 4 thorough; joins with the eager probe side (HashJoinBuffering): 2 quick (all inputs and variants), 3 thorough on J1/J2 x {IN-list, hash_lookup} x {CollectLeft, Partitioned(2)} and 2 on the rest; 2-key joins, null-aware anti join: 2 quick, 3 thorough; drop scenarios: 2; joins whose probe side is polled lazily (the filter is complete before the first probe batch is requested) and join types without pushdown: 1 quick, 2 thorough; thorough DB(2) input sweep: 1",
+            "deviation_bounds": "TopK / min-max: 3 quick, 4 thorough; joins with the eager probe side (HashJoinBuffering): 2 quick (all inputs and variants), 3 thorough on inputs J1/J2 x {CollectLeft, Partitioned(2)} and 2 on the rest; 2-key joins, null-aware anti join: 2 quick, 3 thorough; drop scenarios: 2; joins whose probe side is polled lazily (the filter is complete before the first probe batch is requested) and join types without pushdown: 1 quick, 2 thorough; thorough DB(2) input sweep: 1",
             "inputs": "joins: build <= 3 rows, probe <= 4 rows over key {NULL,1,2,3} (second key {1,2}), 2 partitions x 0-2 batches; TopK / min-max: 4-6 rows in 2 partitions x 1-2 batches; thorough adds every build x probe multiset of <= 2 rows",
             "joins": "CollectLeft and Partitioned(2; thorough also 3) x 10 join types x NullEquality x {IN-list, hash_lookup on ArrayMap, hash_lookup on JoinHashMap} x {probe polled lazily, HashJoinBuffering/BufferExec eager} ; 2-key joins; null-aware LeftAnti; early drop of an output partition",
             "topk": "SortPreservingMerge over per-partition SortExec(fetch) and SortExec(fetch) over CoalescePartitions x k in {1,2} x asc/desc x nulls first/last x 1-2 sort keys",
@@ -1206,7 +1212,9 @@ fn explore(ctx: &Ctx) {
                         return mc_core::explore::Trace { choices: prefix.to_vec(), enabled: vec![1; prefix.len()] };
                     }
                 };
-                ctx.eval();
+                if !matches!(&res, Err(w) if w == DIVERGED) {
+                    ctx.eval();
+                }
                 c.prefix = trace.choices.clone();
                 match res {
                     Ok(st) => {
@@ -1264,6 +1272,7 @@ fn explore(ctx: &Ctx) {
                             }
                         }
                     }
+                    Err(w) if w == DIVERGED => {}
                     Err(w) => {
                         ctx.violation(violation_key(sc, &w), w, json!({"scenario": c}));
                     }
@@ -1274,6 +1283,10 @@ fn explore(ctx: &Ctx) {
         );
         if !stats.complete {
             ctx.mark_capped("wall cap hit during event-order exploration");
+        }
+        if stats.diverged > 0 {
+            ctx.count("replays_that_diverged", stats.diverged);
+            ctx.mark_capped("some replays diverged from their prefix (nondeterminism inside the operator); their subtrees were not explored");
         }
         let mut pf = per_family.lock();
         let e = pf.entry(fam.to_string()).or_insert([0; 5]);
